@@ -73,6 +73,7 @@ type c06Op struct {
 	UID   string    `json:"uid,omitempty"`
 	B     uint64    `json:"b"`
 	Evs   []c06Ev   `json:"evs,omitempty"`
+	Look  int       `json:"look,omitempty"` // k = "chain": number of polls the events stay in the provider's answer
 	Ups   []c06Up   `json:"ups,omitempty"`
 	Items []c06Item `json:"items,omitempty"`
 }
@@ -105,18 +106,46 @@ type c06Impl struct {
 
 // c06Events is the transmit event provider: it returns the content set by the
 // script and records every call with its virtual time.
+//
+// Two kinds of content: `events` is returned on every poll until the script replaces
+// it; `chain` models a real provider's look-back: an event emitted on chain stays in
+// the answer of the next `left` polls, its confirmations growing by one per poll.
 type c06Events struct {
 	mu     sync.Mutex
 	start  time.Time
 	events []ocr2keepers.TransmitEvent
+	chain  []c06ChainEv
 	polls  []c06Poll
+}
+type c06ChainEv struct {
+	ev   ocr2keepers.TransmitEvent
+	age  int64
+	left int
 }
 
 func (f *c06Events) GetLatestEvents(context.Context) ([]ocr2keepers.TransmitEvent, error) {
 	f.mu.Lock()
 	defer f.mu.Unlock()
-	f.polls = append(f.polls, c06Poll{At: int64(time.Since(f.start)), N: len(f.events)})
-	return append([]ocr2keepers.TransmitEvent(nil), f.events...), nil
+	out := append([]ocr2keepers.TransmitEvent(nil), f.events...)
+	keep := f.chain[:0]
+	for _, c := range f.chain {
+		ev := c.ev
+		ev.Confirmations += c.age
+		out = append(out, ev)
+		if c.left > 1 {
+			keep = append(keep, c06ChainEv{ev: c.ev, age: c.age + 1, left: c.left - 1})
+		}
+	}
+	f.chain = keep
+	f.polls = append(f.polls, c06Poll{At: int64(time.Since(f.start)), N: len(out)})
+	return out, nil
+}
+func (f *c06Events) Chain(evs []ocr2keepers.TransmitEvent, look int) {
+	f.mu.Lock()
+	for _, ev := range evs {
+		f.chain = append(f.chain, c06ChainEv{ev: ev, left: look})
+	}
+	f.mu.Unlock()
 }
 func (f *c06Events) Set(evs []ocr2keepers.TransmitEvent) {
 	f.mu.Lock()
@@ -277,6 +306,10 @@ func c06Run(t *testing.T, in c06Input, idx map[string]int) c06Impl {
 				prov.Set(c06ToEvents(op.Evs))
 				prov2.Set(c06ToEvents(op.Evs))
 				impl.Ans = append(impl.Ans, nil)
+			case "chain":
+				prov.Chain(c06ToEvents(op.Evs), op.Look)
+				prov2.Chain(c06ToEvents(op.Evs), op.Look)
+				impl.Ans = append(impl.Ans, nil)
 			default:
 				impl.Err = "plugin mode: unsupported op " + op.K
 				impl.Ans = append(impl.Ans, nil)
@@ -317,6 +350,9 @@ func c06Run(t *testing.T, in c06Input, idx map[string]int) c06Impl {
 			impl.Ans = append(impl.Ans, c.ShouldTransmit(c06Reported(c06Up{W: op.W, UID: op.UID, B: op.B})))
 		case "events":
 			prov.Set(c06ToEvents(op.Evs))
+			impl.Ans = append(impl.Ans, nil)
+		case "chain":
+			prov.Chain(c06ToEvents(op.Evs), op.Look)
 			impl.Ans = append(impl.Ans, nil)
 		case "restart":
 			c.Close()
@@ -367,6 +403,7 @@ type c06Work struct {
 	last   uint64 // last block used in an accept
 	lastAt int64
 	tb     uint64 // transmit block of the last event generated for it
+	force  bool   // the next accept of this work uses exactly `last` (an early event waits for it)
 }
 
 type c06Gen struct {
@@ -512,6 +549,40 @@ func (g *c06Gen) genEvents() {
 	g.add(c06Op{K: "events", Evs: append([]c06Ev{}, evs...)})
 }
 
+// genChain emits events the way a chain does: they stay in the provider's answer for the
+// next `look` polls with growing confirmations.  Half of the time the event is EARLY: for a
+// block the node has not accepted yet and will accept next (another node transmitted
+// first, or this node restarted with empty state).
+func (g *c06Gen) genChain() {
+	r := g.r
+	wk := g.pick()
+	ev := c06Ev{W: wk.W, UID: wk.UID, Ty: 1}
+	if r.Chance(35) {
+		ev.Ty = r.Range(2, 4)
+	}
+	if r.Chance(50) {
+		if r.Chance(60) {
+			wk.last++ // a block that has not been accepted yet
+		}
+		wk.force = true
+		g.em.Hit("chain:early")
+	}
+	ev.CB = wk.last
+	if r.Chance(15) {
+		ev.CB = g.near(wk.last)
+	}
+	wk.tb = ev.CB + uint64(r.Range(1, 6))
+	ev.TB = wk.tb
+	ev.Conf = int64(g.in.Cfg.MinConf) + int64(r.Range(-2, 1))
+	if ev.Conf < 0 {
+		ev.Conf = 0
+	}
+	ev.Tx = hx(r.Bytes(32))
+	g.em.Hit(fmt.Sprintf("event:type=%d", ev.Ty))
+	g.add(c06Op{K: "chain", Evs: []c06Ev{ev}, Look: r.Range(2, 8)})
+	g.evs = append(g.evs, ev) // polls on the way are worth visiting as window marks
+}
+
 func (g *c06Gen) add(op c06Op) {
 	op.At = g.cur
 	g.in.Ops = append(g.in.Ops, op)
@@ -520,7 +591,15 @@ func (g *c06Gen) add(op c06Op) {
 
 func (g *c06Gen) genAccept() {
 	wk := g.pick()
+	for _, w := range g.works { // an early event is waiting for exactly this block
+		if w.force && g.r.Chance(70) {
+			wk = w
+		}
+	}
 	switch k := g.r.Intn(10); {
+	case wk.force:
+		wk.force = false
+		g.em.Hit("accept:after-early-event")
 	case k < 4:
 		wk.last++
 	case k < 6:
@@ -595,6 +674,40 @@ func (g *c06Gen) items() []c06Item {
 		}
 		out = append(out, it)
 	}
+	// runs of ADJACENT items for one unit of work (duplicates of the same work id, same or
+	// neighbouring blocks) at the start, the end and inside the list: when that work is
+	// withheld, every item of the run must go
+	for nruns := r.Intn(4); nruns > 0 && len(g.works) > 0; nruns-- {
+		wk := g.pick()
+		k := r.Range(2, 5)
+		run := make([]c06Item, 0, k)
+		for i := 0; i < k; i++ {
+			it := c06Item{W: wk.W, UID: wk.UID, Ty: wk.Ty, B: wk.last}
+			switch x := r.Intn(4); {
+			case x == 0 && wk.tb > 0:
+				it.B = uint64(int64(wk.tb) + int64(r.Range(-1, 1)))
+			case x == 1:
+				it.B = g.near(wk.last)
+			}
+			run = append(run, it)
+		}
+		pos := 0
+		switch r.Intn(3) {
+		case 0:
+			pos = 0
+			g.em.Hit("items:run-at-start")
+		case 1:
+			pos = len(out)
+			g.em.Hit("items:run-at-end")
+		default:
+			pos = r.Intn(len(out) + 1)
+			g.em.Hit("items:run-inside")
+		}
+		out = append(out[:pos], append(run, out[pos:]...)...)
+	}
+	for i := range out {
+		out[i].Tag = i
+	}
 	return out
 }
 
@@ -648,8 +761,10 @@ func c06GenCase(r *Rng, em *Emitter, c07 bool, plugin bool) c06Input {
 				g.add(c06Op{K: "acceptReport", Ups: g.ups()})
 			case k < 75:
 				g.add(c06Op{K: "transmitReport", Ups: g.ups()})
-			default:
+			case k < 90:
 				g.genEvents()
+			default:
+				g.genChain()
 			}
 		case c07:
 			switch {
@@ -657,8 +772,10 @@ func c06GenCase(r *Rng, em *Emitter, c07 bool, plugin bool) c06Input {
 				g.genAccept()
 			case k < 27:
 				g.genTransmit()
-			case k < 50:
+			case k < 43:
 				g.genEvents()
+			case k < 50:
+				g.genChain()
 			case k < 52:
 				g.restart()
 			case k < 68:
@@ -674,8 +791,10 @@ func c06GenCase(r *Rng, em *Emitter, c07 bool, plugin bool) c06Input {
 				g.genAccept()
 			case k < 70:
 				g.genTransmit()
-			case k < 98:
+			case k < 88:
 				g.genEvents()
+			case k < 98:
+				g.genChain()
 			default:
 				g.restart()
 			}
@@ -776,6 +895,19 @@ func c06Edge() []c06Input {
 		s.at(1137, 0).accept(0, 10).transmit(0, 10)
 		s.at(2137, 0).transmit(0, 10)
 		out = append(out, s.end(2500))
+	}
+	// the chain keeps returning a confirmed perform event (look-back of 6 polls, confirmations
+	// growing) that was first polled BEFORE the report was accepted — another node transmitted
+	// first, or (second half) this node restarted: it must be processed after the acceptance
+	{
+		s := c06NewScript(2, 5000, 0, 1)
+		s.at(137, 0).op(c06Op{K: "chain", Evs: []c06Ev{s.ev(0, 1, 1, 15, 10, 1), s.ev(1, 2, 1, 15, 10, 3)}, Look: 6})
+		s.at(2137, 0).accept(0, 10).accept(1, 10).transmit(0, 10).transmit(1, 10)
+		s.at(3137, 0).transmit(0, 10).transmit(1, 10).accept(0, 10)
+		s.at(3600, 0).op(c06Op{K: "restart"})
+		s.at(3700, 0).accept(0, 10).accept(1, 10)
+		s.at(4700, 0).transmit(0, 10).transmit(1, 10)
+		out = append(out, s.end(7900))
 	}
 	// an old event stays visited after the record expired: the lower block accepted afterwards is offered
 	{
@@ -965,7 +1097,74 @@ func c06CoordRace(t *testing.T, trials int) int {
 	return lost
 }
 
+// c06PollRace: Accept racing the event loop on a real, started coordinator.  K work ids
+// await block 100; the provider returns a confirmed perform event for (w, 100) for each; at
+// exactly the poll instant (same virtual instant, i.e. really concurrent with the poller)
+// the script accepts (w, 200) for each of them from a few goroutines.  Whichever of the two
+// operations comes first, the state must end as {200, pending}: Accept(w,200) answers
+// true, ShouldTransmit(w,200) is true afterwards and the lower block 150 is refused.  A
+// trial is lost if that fails for some work id (the event body's read-modify-write was
+// not atomic w.r.t. Accept).
+func c06PollRace(t *testing.T, trials int) int {
+	lost := 0
+	r := NewRng(98)
+	const K = 48
+	wks := make([]*c06Work, K)
+	evs := make([]c06Ev, K)
+	for i := range wks {
+		wks[i] = c06NewWork(r, i%2)
+		evs[i] = c06Ev{W: wks[i].W, UID: wks[i].UID, Tx: hx(r.Bytes(32)), Ty: 1, TB: 120, CB: 100, Conf: 5}
+	}
+	for i := 0; i < trials; i++ {
+		synctest.Test(t, func(t *testing.T) {
+			ctx := context.Background()
+			prov := &c06Events{start: time.Now()}
+			c := coordinator.NewCoordinator(prov, utg, config.OffchainConfig{PerformLockoutWindow: 5000, MinConfirmations: 1}, quietLogger)
+			go c.Start(ctx)
+			synctest.Wait()
+			time.Sleep(137 * time.Millisecond)
+			for _, wk := range wks {
+				c.Accept(c06Reported(c06Up{W: wk.W, UID: wk.UID, B: 100}))
+			}
+			prov.Set(c06ToEvents(evs))
+			var bad atomic.Int64
+			var wg sync.WaitGroup
+			const G = 4
+			for g := 0; g < G; g++ {
+				wg.Add(1)
+				go func() {
+					defer wg.Done()
+					time.Sleep(time.Second - 137*time.Millisecond) // wake up together with the poller
+					for j := g; j < K; j += G {
+						if !c.Accept(c06Reported(c06Up{W: wks[j].W, UID: wks[j].UID, B: 200})) {
+							bad.Add(1)
+						}
+					}
+				}()
+			}
+			wg.Wait()
+			synctest.Wait()
+			for _, wk := range wks {
+				if !c.ShouldTransmit(c06Reported(c06Up{W: wk.W, UID: wk.UID, B: 200})) ||
+					c.Accept(c06Reported(c06Up{W: wk.W, UID: wk.UID, B: 150})) {
+					bad.Add(1)
+				}
+			}
+			if bad.Load() > 0 {
+				lost++
+			}
+			c.Close()
+			synctest.Wait()
+		})
+	}
+	return lost
+}
+
 func c06RaceCases(t *testing.T, em *Emitter) {
+	if em.prop == "C06" {
+		k := tierN(2000, 20000)
+		em.Emit("stress", c06RaceInput{Kind: "coordinator-poll-race", Trials: k}, c06RaceImpl{Lost: c06PollRace(t, k)})
+	}
 	n := tierN(30000, 300000)
 	em.Emit("stress", c06RaceInput{Kind: "cache-race", Trials: n}, c06RaceImpl{Lost: c06CacheRace(n)})
 	m := tierN(10000, 100000)
@@ -983,10 +1182,17 @@ func c06RunAll(t *testing.T, prop string, edge []c06Input, gen func(r *Rng, em *
 	}
 	names, raws, replayOnly := corpusInputs(t, prop)
 	for i, raw := range raws {
+		var fc c07FlowInput
+		if json.Unmarshal(raw, &fc) == nil && fc.Kind == "flow" { // replay of a flow case
+			synctest.Test(t, func(t *testing.T) { em.Emit(names[i], fc, c07FlowRun(t, fc)) })
+			continue
+		}
 		var rc c06RaceInput
 		if json.Unmarshal(raw, &rc) == nil && rc.Kind != "" { // replay of a stress case
 			if rc.Kind == "cache-race" {
 				em.Emit(names[i], rc, c06RaceImpl{Lost: c06CacheRace(rc.Trials)})
+			} else if rc.Kind == "coordinator-poll-race" {
+				em.Emit(names[i], rc, c06RaceImpl{Lost: c06PollRace(t, rc.Trials)})
 			} else {
 				em.Emit(names[i], rc, c06RaceImpl{Lost: c06CoordRace(t, rc.Trials)})
 			}
@@ -1005,6 +1211,9 @@ func c06RunAll(t *testing.T, prop string, edge []c06Input, gen func(r *Rng, em *
 		run("edge", in)
 	}
 	c06RaceCases(t, em)
+	if prop == "C07" {
+		c07FlowAll(t, em)
+	}
 	r := NewRng(seed())
 	for i := 0; i < n; i++ {
 		run("gen", gen(r, em, i))
